@@ -518,6 +518,15 @@ fn main() {
                         src.write_partial_annotation_text(&mut buf);
                     }
                 }
+                if op["update"].as_bool().unwrap_or(false) {
+                    // parse into the EXISTING sentence `to` (update_* on a reused object)
+                    let dst = sents.get_mut(&s(&op["to"])).expect("sentence id");
+                    let r = if fmt == "tokenized" { dst.update_tokenized(&buf) } else { dst.update_partial_annotation(&buf) };
+                    return match r {
+                        Ok(()) => json!({"ok": true, "text": buf}),
+                        Err(e) => json!({"err": format!("{e}"), "text": buf}),
+                    };
+                }
                 let r = if fmt == "tokenized" { Sentence::from_tokenized(&buf) } else { Sentence::from_partial_annotation(&buf) };
                 match r {
                     Ok(x) => {
